@@ -571,10 +571,18 @@ func vPersistCompareQuiet(p string, want map[string]any) bool {
 var vSavePoints = []string{"save.begin", "save.tmpWritten", "save.bakRemoved", "save.mainMoved", "save.done"}
 
 func vVersionValues(ver int) map[string]any {
+	// record lengths incl. the smallest ones the server accepts (3 pre-trigger samples; one post-trigger sample)
+	npre, nsamp := 100*ver, 400*ver
+	switch ver % 4 {
+	case 0:
+		nsamp = npre + 1
+	case 1:
+		npre = 3
+	}
 	return map[string]any{
 		"TRIANGLE":   &TriangleSourceConfig{Nchan: 10 + ver, SampleRate: 1000 * float64(ver), Min: RawType(ver), Max: RawType(1000 + ver)},
 		"SIMPULSE":   &SimPulseSourceConfig{Nchan: 20 + ver, SampleRate: 2000 * float64(ver), Pedestal: float64(ver), Amplitudes: []float64{float64(ver)}, Nsamp: 100 * ver},
-		"STATUS":     ServerStatus{Npresamp: 100 * ver, Nsamples: 400 * ver, SourceName: fmt.Sprintf("v%d", ver)},
+		"STATUS":     ServerStatus{Npresamp: npre, Nsamples: nsamp, SourceName: fmt.Sprintf("v%d", ver)},
 		"WRITING":    &WritingState{BasePath: fmt.Sprintf("/data/version%d", ver)},
 		"TESMAPFILE": fmt.Sprintf("/maps/version%d.cfg", ver),
 		"ABACO": &AbacoSourceConfig{ActiveCards: []int{ver % 3}, HostPortUDP: []string{fmt.Sprintf("localhost:%d", 4000+ver)},
